@@ -43,6 +43,17 @@ def judge(ck, fails, origin):
                       "how": "bin/check C13 --replay <this file> re-executes the calls (with the same reader schedule) on /repo and validates them with spec/stream/StreamTrace.tla"})
 
 
+def report_hang(ck, s, origin):
+    """The driver's watchdog fired: a StreamLexer call did not return within its limit."""
+    if s.get("_rc") != 3:
+        return False
+    h = s.get("_hang") or {}
+    ck.violation("stream/call-does-not-return", "a StreamLexer call did not return within %ss (%s); scenario: %s" % (
+        h.get("seconds"), origin, json.dumps(h.get("case"))[:600]), {"suite": "stream", "origin": origin, "scenario": h.get("case"),
+        "how": "re-run bin/check C13; the scenario (size, reader schedule, calls) is in 'scenario'"})
+    return True
+
+
 def run(ck):
     thorough = ck.tier == "thorough"
     # --- design level: the implementation-shaped model refines the property spec on all bounded streams
@@ -52,6 +63,8 @@ def run(ck):
     n = 30000 if thorough else 2500
     s2 = ck.drive("stream", "record", "-n", n, "-steps", 80 if thorough else 60, "-long", 12 if thorough else 3, "-seed", ck.seed,
                   "-out", ck.path("record.ndjson"))
+    if report_hang(ck, s2, "recorded random history"):
+        return
     ck.cov["evaluations"] += s2["executions"]
     ck.cov["distinct_nontrivial"] += s2["distinct_nontrivial"]
     ck.cov["rule"] += ("record: seeded random contract-respecting call sequences x random reader schedules (chunk sizes 1..n, zero-length reads, "
@@ -83,6 +96,8 @@ def run_impl(ck, thorough):
     ck.cov["constants"] = {"cfg": cfg, "L": 5 if thorough else 4, "Sizes": [0, 2, 4] if thorough else [0, 2], "Depth": 6, "MaxPeek": 2,
                            "MaxMove": 2, "MaxChunk": 3, "MaxZero": 1, "EndKinds": ["eof", "fail"]}
     s1 = ck.drive("stream", "replay", "-cases", cases, "-out", ck.path("replay.ndjson"), "-sample", 400 if thorough else 150)
+    if report_hang(ck, s1, "replay of a StreamImpl behaviour"):
+        return
     if s1["cases"] == 0:
         ck.fatal("generator produced no scenarios")
     ck.log("replayed %d model behaviours on the code, %d differ from StreamImpl" % (s1["executions"], s1["mismatches"]))
